@@ -24,6 +24,8 @@ func c02Leaves() []c02leafSpec {
 	for _, t := range []string{"int", "float", "bool", "string", "enum"} {
 		ls = append(ls, c02leafSpec{t, "fn1", "none", ""}, c02leafSpec{t, "fn2", "col", ""})
 	}
+	// like/ilike kernels inside clause contexts (pattern semantics themselves: C18)
+	ls = append(ls, c02leafSpec{"string", "like", "pat", ""}, c02leafSpec{"string", "ilike", "pat", ""}, c02leafSpec{"enum", "like", "pat", ""}, c02leafSpec{"enum", "ilike", "pat", ""})
 	return ls
 }
 
@@ -32,10 +34,10 @@ func init() {
 		ID:   "C02",
 		Dirs: []string{"root"},
 		Jobs: func(tier string) []Job {
-			ctxs := []string{"leaf", "not", "inv", "or", "or_rev", "and", "not_or"}
+			ctxs := []string{"leaf", "not", "inv", "or", "or_rev", "and", "not_or", "or_inv"}
 			n, pP, sn, sP, strlen := 2, 3, 2, 2, 1
 			if tier == "thorough" {
-				ctxs = []string{"leaf", "not", "inv", "notnot", "not_and1", "and", "and_rev", "or", "or_rev", "or_notl", "or_notk", "not_or", "and_or", "or_and", "or3"}
+				ctxs = []string{"leaf", "not", "inv", "notnot", "not_and1", "and", "and_rev", "or", "or_rev", "or_notl", "or_notk", "not_or", "and_or", "or_and", "or3", "or_inv", "or_inv_first", "and_inv"}
 				n, pP, sn, sP, strlen = 3, 4, 2, 3, 2
 			}
 			var jobs []Job
@@ -58,13 +60,26 @@ func init() {
 					jobs = append(jobs, Job{Harness: "VX_C02_leaf", Params: p})
 				}
 			}
+			// full-length (n == P) permuted indexes: nothing removed, order changed
+			for _, l := range c02Leaves() {
+				for _, c := range []string{"leaf", "or_rev"} {
+					p := P("typ", l.typ, "cmp", l.cmp, "arg", l.arg, "ctx", c, "n", "2", "P", "2", "strlen", "1")
+					if l.typ == "enum" {
+						p["ev"] = "2"
+					}
+					if l.btyp != "" {
+						p["btyp"] = l.btyp
+					}
+					jobs = append(jobs, Job{Harness: "VX_C02_leaf", Params: p})
+				}
+			}
 			return jobs
 		},
 		Bounds: func(tier string) string {
 			if tier == "thorough" {
-				return "rows n=3 of P=4 physical (string/enum: n=2,P=3, cells <=2 bytes), value lists of 2, 15 clause contexts per leaf kernel; all cell values, index contents and constants symbolic"
+				return "rows n=3 of P=4 physical (string/enum: n=2,P=3, cells <=2 bytes), value lists of 2, 18 clause contexts per leaf kernel, plus full-length permuted frames (n=P=2) in 2 contexts; all cell values, index contents and constants symbolic"
 			}
-			return "rows n=2 of P=3 physical (string/enum: n=2,P=2, cells <=1 byte), value lists of 2, 7 clause contexts per leaf kernel; all cell values, index contents and constants symbolic"
+			return "rows n=2 of P=3 physical (string/enum: n=2,P=2, cells <=1 byte), value lists of 2, 8 clause contexts per leaf kernel, plus full-length permuted frames (n=P=2) in 2 contexts; all cell values, index contents and constants symbolic"
 		},
 		Assume: []string{
 			"frames are built as New(data).withIndex(ix) with ix an arbitrary injective sequence of positions (DESIGN 3.2)",
